@@ -178,7 +178,7 @@ Section Weights.
 
     Definition mk (fam cls : string) (p : pmap) (nf ihq : Z) : outcome kernel :=
       match inv_lookup inv fam (modname k prc) with
-      | None => Crash "ModuleNotFoundError"
+      | None => Rejected "NotImplementedError: no such kind/process module"   (* import_local *)
       | Some cs =>
         match find_class cs cls with
         | Some ci => Ok {| k_fam := fam; k_cls := cls; k_partons := p; k_nf := nf; k_ihq := ihq;
@@ -189,7 +189,7 @@ Section Weights.
     (* import of the module alone (done before any class is touched) *)
     Definition imp (fam : string) : outcome unit :=
       match inv_lookup inv fam (modname k prc) with
-      | None => Crash "ModuleNotFoundError" | Some _ => Ok tt end.
+      | None => Rejected "NotImplementedError: no such kind/process module" | Some _ => Ok tt end.
 
     Fixpoint oseq {A} (l : list (outcome A)) : outcome (list A) :=
       match l with
@@ -238,11 +238,11 @@ Section Weights.
         do e <- mk "light" "NonSingletEven" (cc_ns we) nf 0;
         do od <- mk "light" "NonSingletOdd" (cc_ns wo) nf 0;
         if pv then
-          (* w_odd["s"]: cc_weights_odd has no such entry *)
-          match cc_s wo with
+          (* w_odd["v"] divided by nf *)
+          match cc_v wo with
           | None => Crash "KeyError"
           | Some s =>
-            do v <- mk "light" "Valence" (pmap_map (fun q c => fsign q * c / fz nf) s) nf 0;
+            do v <- mk "light" "Valence" (pmap_map (fun _ c => c / fz nf) s) nf 0;
             Ok [e; od; v]
           end
         else
